@@ -3,7 +3,8 @@
 tier="${1:-quick}"; shift
 names=("$@"); if [ ${#names[@]} -eq 0 ]; then names=($(ls /verif/seeded)); fi
 for n in "${names[@]}"; do
-  out=$(/verif/tools/seed_run_iso.sh $n $tier 2>&1)
+  with=$(python3 -c "import json;print(json.load(open('/verif/seeded/$n/meta.json')).get('check_with',''))" 2>/dev/null)
+  out=$(/verif/tools/seed_run_iso.sh $n $tier $with 2>&1)
   fp=$(echo "$out" | grep -o "fingerprint=[^ ]*" | head -2 | tr '\n' ' ')
   echo "$(echo "$out" | tail -1) | $fp"
 done
